@@ -81,7 +81,12 @@ def encode_to_dict(obj: Any, refs: Dict[int, Any]):
         # They will be re-created afterward.
         return None
     else:
-        # Otherwise, we need custom encoding with support for references
+        # Otherwise, we need custom encoding with support for references.
+        # The object is registered before its members are encoded, so that a member
+        # that refers back to it is encoded as a reference (cyclic structures).
+        registered: Dict[str, Any] = {}
+        refs[obj_id] = registered
+
         if isinstance(obj, dict) and all(isinstance(k, str) for k in obj):
             value = {
                 "__type": "dict",
@@ -135,9 +140,10 @@ def encode_to_dict(obj: Any, refs: Dict[int, Any]):
         else:
             raise Exception(f"Unhandled type in encode_to_dict: {type(obj)}")
 
-        refs[obj_id] = value
+        # (the reference markers that were added in the meantime are kept)
+        registered.update(value)
 
-        return value
+        return registered
 
 
 def decode_from_dict(d: Any, refs: Dict[int, Any]):
@@ -156,6 +162,12 @@ def decode_from_dict(d: Any, refs: Dict[int, Any]):
         if "__type" in d:
             d_type = d["__type"]
 
+            def register(value):
+                # (registered before the children are decoded: cyclic structures)
+                if "__id" in d:
+                    refs[d["__id"]] = value
+                return value
+
             if d_type == "ref":
                 # If it's a reference, we use it.
                 if d["__id"] not in refs:
@@ -173,21 +185,22 @@ def decode_from_dict(d: Any, refs: Dict[int, Any]):
             elif d_type == "SpecType":
                 value = colang_ast_module.SpecType(d["value"])
 
+            elif d_type == "comparison":
+                value = ComparisonExpression.from_name(d["name"], d["value"])
+
             elif d_type == "Action":
-                value = Action.from_dict(decode_from_dict(d["value"], refs))
+                value = register(Action.__new__(Action))
+                args = decode_from_dict(d["value"], refs)
+                value.__dict__.update(Action.from_dict(args).__dict__)
 
             elif d_type in name_to_class:
+                cls = name_to_class[d_type]
+                obj = register(cls.__new__(cls))
                 args = decode_from_dict(d["value"], refs)
-
-                # Attributes starting with "_" can't be passed to the constructor
-                # for dataclasses, so we set them afterward.
-                obj = name_to_class[d_type](
-                    **{k: v for k, v in args.items() if k[0] != "_"}
-                )
+                # (the state of a dataclass is exactly its fields)
                 for k in args:
-                    if k[0] == "_":
-                        setattr(obj, k, args[k])
-                value = obj
+                    object.__setattr__(obj, k, args[k])
+                return obj
 
             elif d_type == "datetime":
                 value = datetime.fromisoformat(d["value"])
@@ -195,23 +208,23 @@ def decode_from_dict(d: Any, refs: Dict[int, Any]):
             elif d_type == "regex":
                 value = re.compile(d["value"], d["flags"])
 
-            elif d_type == "comparison":
-                value = ComparisonExpression.from_name(d["name"], d["value"])
-
             elif d_type == "deque":
-                value = deque(decode_from_dict(d["value"], refs))
+                value = register(deque())
+                value.extend(decode_from_dict(d["value"], refs))
+                return value
 
             elif d_type == "tuple":
                 value = tuple(decode_from_dict(d["value"], refs))
 
-            elif d_type == "dict" and "items" in d:
-                value = {
-                    decode_from_dict(k, refs): decode_from_dict(v, refs)
-                    for k, v in d["items"]
-                }
-
             elif d_type == "dict":
-                value = {k: decode_from_dict(v, refs) for k, v in d["value"].items()}
+                value = register({})
+                if "items" in d:
+                    for k, v in d["items"]:
+                        value[decode_from_dict(k, refs)] = decode_from_dict(v, refs)
+                else:
+                    for k, v in d["value"].items():
+                        value[k] = decode_from_dict(v, refs)
+                return value
 
             elif d_type == "set":
                 value = set(decode_from_dict(d["value"], refs))
